@@ -424,6 +424,10 @@ func (in *instr) rewriteSelect(s *ast.SelectStmt) []ast.Stmt {
 	hd := "false"
 	if hasDefault {
 		hd = "true"
+	} else {
+		// keeps the statement terminating when every case returns, as the
+		// select was; Select never returns -1 without a default case
+		clauses = append(clauses, &ast.CaseClause{Body: []ast.Stmt{&ast.ExprStmt{X: call(ast.NewIdent("panic"), &ast.BasicLit{Kind: token.STRING, Value: strconv.Quote("vsched: select without default returned no case")})}}})
 	}
 	args := append([]ast.Expr{ast.NewIdent(hd)}, chans...)
 	sw := &ast.SwitchStmt{Tag: in.vs("Select", args...), Body: &ast.BlockStmt{List: clauses}}
